@@ -292,6 +292,10 @@ func (m c18) run(c *Ctx, t *TypeSpec, rs *ResSpec, muts []c18mut) {
 	var src, cp, fresh jsonapi.Resource
 	if pi := Guard(func() {
 		src = buildResource(t, rs)
+		if t.Wrapped && len(muts)%3 == 1 {
+			src = buildWrappedThroughPointer(t, rs)
+			c.Count("wrapped_sources_filled_through_the_pointer")
+		}
 		if len(muts) > 0 && muts[0].Kind == "append-set" {
 			// the source holds EMPTY slices with spare capacity (ids[:0], buf[:0]): nothing to see, room to append
 			if t.Rel("many") != nil {
@@ -708,6 +712,7 @@ func (m c18) staticCopies(c *Ctx) {
 }
 
 func (m c18) Directed(c *Ctx) {
+	sameNameCheck(c, "C18")
 	m.staticCopies(c)
 	for _, wrapped := range []bool{false, true} {
 		t := TypeSpec{Name: "t", Wrapped: wrapped,
